@@ -49,8 +49,8 @@ structure Cfg where
   legacy : Bool
   /-- prune procedure variant, see the header -/
   fixed : Bool
-  /-- history-pruner migration variant: a state-diff entry without a history entry (a storage write that
-  does not change the slot) is skipped (`true`, proposed fix) or makes the stager fail (`false`, the code at
+  /-- history-pruner migration variant: a state-diff entry without a history entry (zero written to an
+  empty storage slot; any entry on a database written by the new state backend) is skipped (`true`, proposed fix) or makes the stager fail (`false`, the code at
   the pinned commit: `copyValue` returns `ErrKeyNotFound`) -/
   migSkipsMissing : Bool := false
   /-- history-pruner migration variant: a cut-off of block 0 is "nothing to prune" (`true`, proposed fix)
@@ -260,7 +260,8 @@ inductive Op
   /-- a node start that runs the one-time history-pruner migration (`migration/historyprunner`) to
   completion — interrupted runs are resumed / repeated until it is through, see `migrateDb` — and then
   starts the process (seeded floor). `minAgeFloor` = result of its own min-age search; `unchangedSlot` = the
-  state diff of some retained block names a storage slot the block did not change (no history entry). -/
+  state diff of some retained block names a key without a legacy history entry (zero written to an empty slot;
+  on the new state backend: any key). -/
   | migrate (minAgeFloor : Option UInt64) (unchangedSlot : Bool)
   deriving DecidableEq, Repr
 
